@@ -112,11 +112,15 @@ def r04_1(ctx):
     ref0 = json.load(open(REF))["sites"]
     # a closure's sites belong to the function it is written in: moving a panicking expression into or out of a closure
     # (`match .. { None => panic!() }` <-> `unwrap_or_else(|| panic!())`) adds no way to panic
-    fold = lambda k: k.replace("::{closure}", "")
+    # ... and the sites of one function are counted together whatever their kind: `find(..)` + `match { None => panic!() }`,
+    # `position(..).expect(..)`, `xs[i]` and `xs.get(i).unwrap()` are the same way to panic, spelled differently
+    def fold(k):
+        fn, kind = k.replace("::{closure}", "").rsplit(" / ", 1)
+        return fn + (" / overflow" if kind == "overflow" else "")
     inv, msgs, ref = Counter(), defaultdict(set), {}
     for k, v in inv0.items():
         inv[fold(k)] += v
-        msgs[fold(k)] |= msgs0.get(k, set())
+        msgs[fold(k)] |= msgs0.get(k, set()) | {k.rsplit(" / ", 1)[1]}
     for k, r in ref0.items():
         if fold(k) in ref:
             ref[fold(k)] = {"count": ref[fold(k)]["count"] + r["count"], "why": ref[fold(k)].get("why", "") + "; " + r.get("why", "")}
@@ -129,12 +133,12 @@ def r04_1(ctx):
         n += 1
         r = ref.get(key)
         if r is None:
-            ctx.ob("R04.1", "panic-site/" + key, False, "new way to panic: %d site(s) %s not in the reviewed inventory" % (inv[key], sorted(msgs.get(key, []))[:2]))
+            ctx.ob("R04.1", "panic-site/" + key, False, "new way to panic: %d site(s) %s in a function that had none in the reviewed inventory" % (inv[key], sorted(msgs.get(key, []))[:3]))
         elif inv[key] > r["count"]:
-            ctx.ob("R04.1", "panic-site/" + key, False, "%d sites, reviewed %d: a new %s was added to this function" % (inv[key], r["count"], key.rsplit("/ ", 1)[-1]))
+            ctx.ob("R04.1", "panic-site/" + key, False, "%d explicit panic sites %s, reviewed %d: a new one was added to this function" % (inv[key], sorted(msgs.get(key, []))[:3], r["count"]))
         else:
-            ctx.ob("R04.1", "panic-site/" + key, True, "%d site(s); %s" % (inv[key], r.get("why", "reviewed")))
-    ctx.floor("R04.1", "panic-site-classes", n, 136)
+            ctx.ob("R04.1", "panic-site/" + key, True, "%d site(s); %s" % (inv[key], r.get("why", "reviewed")[:200]))
+    ctx.floor("R04.1", "functions-with-panic-sites", n, 100)
     ov = sum(v for k, v in inv.items() if k.endswith("/ overflow"))
     ctx.notes.append("arithmetic-overflow checks (debug builds only, u64 line counters / u32 lengths): %d sites, not part of the inventory" % ov)
 
